@@ -97,8 +97,11 @@ func (s *SpokFile) buildGraph(requested ...string) (*dag.Graph[string, task.Task
 	// DAG of tasks using the name as the unique id
 	graph := dag.New[string, task.Task]()
 
-	// TODO: Make this recursive so it will go through dependencies of dependencies
-	for _, name := range requested {
+	// Work through the requested tasks and then through every dependency added along the
+	// way, so that dependencies of dependencies end up in the graph too
+	queue := append([]string(nil), requested...)
+	for i := 0; i < len(queue); i++ {
+		name := queue[i]
 		requestedTask, ok := s.Tasks[name]
 		if !ok {
 			closest := s.findClosestMatch(name)
@@ -135,6 +138,8 @@ func (s *SpokFile) buildGraph(requested ...string) (*dag.Graph[string, task.Task
 				if err != nil {
 					return nil, fmt.Errorf("could not add vertex for task %s: %w", dep, err)
 				}
+				// First time we've seen this task, its own dependencies need looking at too
+				queue = append(queue, dep)
 			}
 
 			// Now create the dependency connection between the parent task and this one
@@ -170,9 +175,15 @@ func (s *SpokFile) Run(stream iostream.IOStream, runner shell.Runner, force bool
 
 	// Topological sort on the DAG to determine a run order
 	sortStart := time.Now()
+	order := dag.Order()
 	runOrder, err := dag.Sort()
 	if err != nil {
 		return nil, err
+	}
+	if len(runOrder) != order {
+		// The sort only reports a cycle if no task at all is free of dependencies, tasks that are
+		// part of (or depend on) a cycle are otherwise silently left out of the run order
+		return nil, errors.New("task dependencies contain a cycle")
 	}
 	names := make([]string, 0, len(runOrder))
 	for _, taskToRun := range runOrder {
